@@ -109,6 +109,7 @@ def parse_errors(stderr, gen_basename):
                     and os.path.basename(LOC_RE.match(b).group(1)) == gen_basename]
             # labelled source lines of the first span group (`1845 |  fn f(..) {` ... "at the end of the function body"):
             # a postcondition inherited from a trait declaration is located there, not by a `-->` line
+            gutter = []
             if alls and loc is not None:
                 seen_arrow = 0
                 for b in block:
@@ -120,10 +121,10 @@ def parse_errors(stderr, gen_basename):
                     gm = re.match(r"^\s*(\d+)\s*\|", b)
                     if gm and seen_arrow == 1:
                         n = int(gm.group(1))
-                        if n not in alls:
-                            alls.append(n)
+                        if n not in alls and n not in gutter:
+                            gutter.append(n)
             if not msg.startswith("aborting due to"):
-                errs.append({"msg": msg, "line": loc, "lines": alls, "block": "\n".join(block)})
+                errs.append({"msg": msg, "line": loc, "lines": alls, "gutter": gutter, "block": "\n".join(block)})
             i = j
         else:
             i += 1
@@ -371,6 +372,13 @@ def check_unit_once(name, unit, tier, contract_only=()):
             r = region_of(info, ln)
             if r is not None and r.get("mode") == "verify":
                 reg = r
+        if reg is None:
+            # no `-->` location lies in a function under verification: use the labelled source lines (a postcondition
+            # inherited from a trait declaration is located that way)
+            for ln in e.get("gutter", []):
+                r = region_of(info, ln)
+                if r is not None and r.get("mode") == "verify":
+                    reg = r
         if reg is None:
             reg = region_of(info, e["line"])
         sem = bool(SEM_RE.search(e["msg"]))
